@@ -281,7 +281,7 @@ class Driver:
         info = c_void_p()
         L.mpi.MPI_Info_create(byref(info))
         for k, v in hints.items():
-            L.mpi.MPI_Info_set(info, k.encode(), str(v).encode())
+            L.mpi.MPI_Info_set(info, k.encode(), str(v).replace("$SCRATCH", self.scratch()).encode())
         return info, info
 
     def run(self):
@@ -499,6 +499,12 @@ class Driver:
         return e, {"old": old.value}
 
     def op_noop(self, a):
+        return 0, {}
+
+    def op_mkdir(self, a):
+        """rank 0 creates a directory inside the execution's scratch directory (e.g. for burst-buffer logs)"""
+        if self.rank == 0:
+            os.makedirs(self.path(a["path"]), exist_ok=True)
         return 0, {}
 
     def op_load(self, a):
@@ -1163,6 +1169,13 @@ class Driver:
         finally:
             os.close(fd)
         return {"runs": runs, "size": wide(size)}
+
+    def obs_logfiles(self, a):
+        """names left in the burst-buffer log directory (rank 0)"""
+        if self.rank != 0:
+            return None
+        d = self.path(a.get("dir", "bb"))
+        return sorted(os.listdir(d)) if os.path.isdir(d) else ["<no directory>"]
 
     def obs_filesize(self, a):
         if self.rank != 0:
